@@ -14,8 +14,10 @@
 (* spec takes it from the REAL HeldSnaps so the invariants are evaluated   *)
 (* on what the real code reports).                                         *)
 (* History variables (never read by the actions' effect on hold):          *)
-(*   epStart[s][g]  when the current entry hold[s][g] was created = start  *)
-(*                  of the current hold episode of g on s                  *)
+(*   epStart[s][g]  start of the current hold episode of g on s: first     *)
+(*                  accepted hold since the episode last ended (own        *)
+(*                  proceed, refusal, refresh of s, prune) -- driven by    *)
+(*                  requests/outcomes, not by the stored entries           *)
 (*   sysReq[s]      what the administrator last asked for on s             *)
 (*   mon            monitor record of the last action (for the action      *)
 (*                  properties RefusedAtBound / SystemSurvivesRefresh)     *)
@@ -124,19 +126,33 @@ LongestGating(h, s) ==
 (* History / monitors (shared by the spec and the trace spec: they only    *)
 (* look at the unprimed and primed core variables and the request)         *)
 (***************************************************************************)
-EpNext == [s \in Snaps |-> [g \in Holders |->
-             IF ~Has(hold', s, g) THEN -1
-             ELSE IF Has(hold, s, g) THEN epStart[s][g] ELSE now]]
+\* Legitimate ends of the episode of holder h on snap s: h itself proceeds on s, a hold request of h that covers s
+\* is refused (the code then drops all of h's holds on the requested set), s is refreshed, or s has no update any
+\* more (prune).  NOTHING ELSE ends an episode -- in particular not another snap proceeding, nor the hold running out.
+EpEnds(kind, g, S, refused, s, h) ==
+    \/ (kind = "Proceed" /\ h = g /\ (S = {} \/ s \in S))
+    \/ (kind \in {"Hold", "HoldFor"} /\ h = g /\ refused /\ s \in S)
+    \/ (kind = "Refreshed" /\ s \in S /\ h # System)
+    \/ (kind = "Prune" /\ s \notin S /\ h # System)
+
+\* epStart is driven by the requests and their outcomes only, never by what happens to be stored in snaps-hold
+\* (an entry that survives a lost prune keeps its episode: the code keeps its first-held too)
+EpNext(kind, g, S, refused) == [s \in Snaps |-> [h \in Holders |->
+    IF EpEnds(kind, g, S, refused, s, h)
+    THEN (IF Has(hold', s, h) THEN epStart[s][h] ELSE -1)
+    ELSE IF kind \in {"Hold", "HoldFor", "SystemHold"} /\ h = g /\ s \in S /\ ~refused /\ epStart[s][h] = -1
+    THEN now
+    ELSE epStart[s][h]]]
 
 \* the bound is reached for request Hold(g, S) in the current state
 AtBound(g, S) == \E s \in S :
-    \/ (g # s /\ Has(hold, s, g) /\ now >= epStart[s][g] + OtherMax)
+    \/ (g # s /\ epStart[s][g] >= 0 /\ now >= epStart[s][g] + OtherMax)
     \/ now >= lastRefresh[s] + Post
 
 NoMon == [kind |-> "none", atBound |-> FALSE, refused |-> FALSE, sysKept |-> TRUE]
 
 History(kind, g, S, refused, sreq) ==
-    /\ epStart' = EpNext
+    /\ epStart' = EpNext(kind, g, S, refused)
     /\ sysReq'  = sreq
     /\ steps'   = steps + 1
     /\ mon'     = [kind    |-> kind,
